@@ -2,6 +2,17 @@ NOTES = ('Bounded-exhaustive model checking of the real implementation; see DESI
          'Known genuine defects are listed in known_findings.json.')
 NOT_APPLICABLE = {}
 CHECKS = {
+ 'C17': dict(engine='E3', design_ref='4/C17',
+    technique='exhaustive enumeration (full product of every anchored non-linear-capable shell model x {cylinder, cone} x series orders x state letters x integration rule x grid x thread count x imperfection) on the real ConeCyl.calc_kT/calc_fint against central finite differences along a complete basis of the free amplitudes',
+    text='kTuu symmetric; every column of kTuu equals the central-difference derivative of calc_fint with a tolerance tied to the non-linear part of the tangent; internal force of the undeformed perfect shell is zero and its tangent is k0uu; '
+         'for vanishing amplitudes fint -> k0uu c; results independent of the number of integration threads (1e-11).',
+    note='four kernel-level deviations (fsdt_donnell_bc1/bcn, clpt_sanders_bc2/bc3) are known findings, accepted only while calc_kT/calc_fint equal the documented composition of direct kernel calls'),
+ 'C18': dict(engine='E3', design_ref='4/C18',
+    technique='exhaustive enumeration (all admissible geometry input pairs x angles; all prescribed-amplitude subsets x formats with index-encoding matrices; full product model x angle x prescribed subset x load letter x load factor) on the real ConeCyl book-keeping, calc_fext and static against virtual work through the package displacement report',
+    text='Derived geometry mutually consistent for every admissible input pair; exclude_dofs_matrix / calc_full_c are inverse book-keeping (checked with matrices whose entries encode their indices); '
+         'fext.e_k equals the virtual work of point forces, axial ring load, pressure (quadrature of w) and torque ring load against uvw(e_k), incremental parts scaled by the load factor, '
+         'with -k0uk ck of the prescribed amplitudes on the right-hand side; the linear static solution satisfies K_uu c_u = f_u.',
+    note='static check for the conical clpt_donnell_bc2 model is attributed to the C16 kernel finding only while K_uu has zero diagonal entries'),
  'C16': dict(engine='E3', design_ref='4/C16',
     technique='exhaustive enumeration (full product of every anchored importable shell model x semi-vertex angle x geometry x laminate x series orders x edge-restraint letters; kernel-identity edges) on the real ConeCyl linear matrices against the energy Hessian of the package own linear strain field and against direct kernel calls',
     text='k0 symmetric, positive semi-definite, equal to the symmetrised kernel (+ edge matrix) for harness-computed arguments, k0uu = k0 without the prescribed amplitudes; for classical models k0 on the non-prescribed amplitudes equals '
